@@ -113,15 +113,14 @@ func restoreProvidedRuleOptions(mergedConf *Config, providedRules map[string]Cat
 func extractUserRuleLevels(userConfig *Config, mergedConf *Config, providedRuleLevels map[string]string) {
 	for categoryName, rulesByCategory := range mergedConf.Rules {
 		for ruleName, rule := range rulesByCategory {
-			var providedLevel string
-
-			var ok bool
-
-			if providedLevel, ok = providedRuleLevels[ruleName]; !ok {
-				continue
+			// use the level from the provided configuration as the fallback. Rules without one
+			// (i.e. custom rules) fall back to "error", which is also the level reported for
+			// rules not found in the configuration at all (see level_for_rule in config.rego)
+			providedLevel, ok := providedRuleLevels[ruleName]
+			if !ok {
+				providedLevel = "error"
 			}
 
-			// use the level from the provided configuration as the fallback
 			selectedRuleLevel := providedLevel
 
 			var userHasConfiguredRule bool
